@@ -72,6 +72,20 @@ class Attenuated(Case):
         }
         return r
 
+    def concrete_regions(self, values):
+        out = set()
+        n = values.get("n", 0)
+        if self.params["window"] and self.params["check"] == "range":
+            x, t, p = values["x"], values["t"], values["period"]
+            for k in range(n):
+                if any(x[j] is None and t[k] - p < t[j] <= t[k] for j in range(n)):
+                    out.add("missing-in-window")
+        if self.params["check"] == "range" and not self.params["window"] and n == 0:
+            out.add("empty-series-range")
+        if self.params["minimum"] == "period" and self.params["window"] and n <= 1:
+            out.add("min-period-short-series")
+        return out
+
     def _miw(self, res, k):
         """a missing value lies inside the trailing window of k (windowed range mode only)"""
         if not self.params["window"] or self.params["check"] != "range" or res is None:
